@@ -38,6 +38,16 @@ class _Node:
     def dtype(self):
         return self._a.dtype
 
+    @property
+    def chunkshape(self):
+        # PyTables picks a chunk shape on its own; correct code must not depend on it.  The store reports small chunks
+        # (2 rows) so that chunk-boundary behaviour is exercised at small sizes.
+        return (2,) + tuple(self._a.shape[1:])
+
+    @property
+    def nrows(self):
+        return self._a.shape[0]
+
     def __len__(self):
         return self._a.shape[0]
 
